@@ -123,6 +123,15 @@ func (h *HelloPingHandler) Send(dstIP netip.Addr) (notify <-chan struct{}, err e
 	if pingState := h.getActive(dstIP); pingState != nil {
 		return pingState.notify, ErrAlreadyActive
 	}
+
+	// Check if a hello request of the remote router set up the keys since the
+	// caller checked: a second setup would leave both sides "set up" with
+	// different keys if its response gets lost.
+	if session := h.r.instance.State().GetSession(dstIP); session != nil && session.Encryption().IsSetUp() {
+		done := make(chan struct{})
+		close(done)
+		return done, nil
+	}
 	pingState := &helloPingState{
 		pingID: newPingID(),
 		notify: make(chan struct{}),
@@ -183,6 +192,11 @@ func (h *HelloPingHandler) handlePingHelloRequest(w *mgr.WorkerCtx, f frame.Fram
 	if err := cbor.Unmarshal(data, &request); err != nil {
 		return fmt.Errorf("unmarshal request: %w", err)
 	}
+
+	// Do not serve a request while an own request is being sent: either the own
+	// request is registered and seen here, or the keys set up here are seen there.
+	h.sendLock.Lock()
+	defer h.sendLock.Unlock()
 
 	// Resolve concurrent key setups: if both routers sent a request at the same
 	// time, serving the remote request and completing the own one would leave
